@@ -32,6 +32,7 @@ var c13SiteFuncs = map[string][]string{
 	"pkg/rtprtcp/rtp_packet_list.go":       {"IsStale", "Insert", "PopFirst", "PeekFirst", "Full", "IsFirstSequential", "SetDoneSeq", "Reset"},
 	"pkg/rtprtcp/rtp.go":                   {"CompareSeq", "SubSeq"},
 	"pkg/rtsp/base_in_session.go":          {"HandleInterleavedPacket", "onReadRtpPacket", "onReadRtcpPacket", "handleRtcpPacket", "handleRtpPacket", "SetupWithChannel", "InitWithSdp"},
+	"pkg/rtsp/http_message.go":             {"readHttpMessage", "readHttpRequestMessage", "readHttpResponseMessage"},
 	"pkg/rtsp/interleaved.go":              {"readInterleaved"},
 	"pkg/rtsp/rtsp.go":                     {"parseRtpRtcpChannel", "parseClientPort", "parseTransport"},
 	"pkg/rtsp/server_command_session.go":   {"runCmdLoop", "handleOptions", "handleAnnounce", "handleDescribe", "feedSdp", "handleSetup", "handleRecord", "handlePlay", "handleTeardown"},
